@@ -66,6 +66,13 @@ def gen(seed, tier):
         for f in files:
             queries.append({'kind': 'file', 'arg': f['name'], 'argb': f['nb']})
             queries.append({'kind': 'file', 'arg': 'x' + f['name'], 'argb': list(('x' + f['name']).encode())})
+        # the same string through the other kind of lookup, after the lookup that finds it (a symbol is not a file name and a file
+        # name is not a symbol, whatever was asked before), and a few lookups a second time (the second answer is the first answer)
+        for c in [c for c in cands if c.isascii()][:12]:
+            queries.append({'kind': 'file', 'arg': c, 'argb': list(c.encode())})
+        for f in files:
+            queries.append({'kind': 'symbol', 'arg': f['name'], 'argb': f['nb']})
+        queries += [dict(q) for q in queries[:10]]
         queries.append({'kind': 'list', 'arg': '', 'argb': []})
         svcs = [(f['package'] + '.' if f['package'] else '') + s['name'] for f in files for s in f['services']]
         chosen = rnd.sample(svcs, rnd.randint(1, len(svcs))) if svcs and rnd.random() < 0.3 else []
